@@ -32,7 +32,7 @@ package light
 //@ func (*ShareAvailability).SharesAvailable
 //@   property C03
 //@   noframe
-//@   requires !$Stored && header != nil && header.DAH != nil
+//@   requires !$Stored && !$Deleted && header != nil && header.DAH != nil
 //@   checks err == nil && samples != nil ==> len(samples.Remaining) == 0
 //@   checks err == nil && len(smpls) > 0 ==> $Stored && len(failedSamples) == 0 && len(smpls) == len(idxs)
 //@   loop 1: invariant -1 <= rangeindex && rangeindex < len(samples.Remaining) && len(idxs) == len(samples.Remaining)
